@@ -45,6 +45,7 @@ def run(idx, rep, tier):
     r1(idx, rep)
     r2(idx, rep)
     r3(idx, rep)
+    early_raise(idx, rep, "R3")
     r4(idx, rep)
     r5(idx, rep)
     r6(idx, rep)
@@ -164,7 +165,8 @@ def r1(idx, rep):
 def r2(idx, rep):
     owners = {
         "scan_count": {"CsvPath.__init__": "0", "CsvPath._consider_line": "self.scan_count + 1"},
-        "match_count": {"CsvPath.__init__": "0", "CsvPath.raise_match_count_if": "+=1"},
+        # (_consider_line may take an early raise back: it restores the count it saved at the start of a line that did not match)
+        "match_count": {"CsvPath.__init__": "0", "CsvPath.raise_match_count_if": "+=1", "CsvPath._consider_line": "self." + K.names(idx)["cmc"]},
         K.names(idx)["cmc"]: {"CsvPath.__init__": "0", "CsvPath._consider_line": "self.match_count"},
     }
     for attr, own in owners.items():
@@ -195,9 +197,43 @@ def r2(idx, rep):
             okv = got == want or (want == "self.scan_count + 1" and got in ("self.scan_count + 1", "+=1", "1 + self.scan_count"))
             rep.check(okv, "R2", key, f"stores `{got}`, documented `{want}`", K.where(fi, st))
         for q in own:
-            if q not in seen:
+            if q not in seen and not (attr == "match_count" and q == "CsvPath._consider_line"):
                 rep.fail("R2", f"{q} writes {attr} (missing)", f"{q} no longer writes {attr}", q)
     rep.floor("R2", 6, "counter stores")
+
+
+def early_raise(idx, rep, rid):
+    """match_count is the number of lines that matched.  An onmatch component may raise it *during* matching (the look-ahead found the
+    rest of the line matching); when the line then does not match after all (that component itself voted no), the line must not stay
+    counted.  CsvPath._consider_line is interpreted with a matcher that raises the count early and then votes."""
+    fi = idx.method("CsvPath", "_consider_line")
+    rep.analysed(fi)
+    cmc = "self." + K.names(idx)["cmc"]
+    bad = None
+    for vote in (True, False, None):
+        for early in (True, False):
+            def h_matches(i, c, r, a, k, vote=vote, early=early):
+                if early:
+                    i.store["self.match_count"] = i.store["self.match_count"] + 1   # what raise_match_count_if does for the look-ahead
+                return vote
+
+            def h_raise(i, c, r, a, k):
+                if i.store[cmc] == i.store["self.match_count"]:
+                    i.store["self.match_count"] = i.store["self.match_count"] + 1
+
+            it = Interp(idx, types={"self": "CsvPath"}, inline_all={"CsvPath"},
+                        handlers={"self.matches": h_matches, "self.stop": lambda i, c, r, a, k: None, "self.raise_match_count_if": h_raise,
+                                  "self.line_monitor.is_last_line_and_blank": lambda i, c, r, a, k: False, "self.scanner.includes": lambda i, c, r, a, k: True,
+                                  "self.scanner.is_last": lambda i, c, r, a, k: False})
+            store = K.seed_aliases(idx, "CsvPath", {"self.advance_count": 0, "self.scan_count": 5, "self.match_count": 3, cmc: 0, "self.skip_blank_lines": True,
+                                                    "self.collect_when_not_matched": False})
+            ps = it.run_all(fi, args={"line": ["x", "y"]}, store=store)
+            want = 4 if vote is True else 3
+            got = [p.final_store.get("self.match_count") for p in ps]
+            if len(ps) != 1 or got != [want]:
+                bad = bad or (f"the line's verdict is {vote!r}, the count was {'raised early by an onmatch look-ahead' if early else 'not raised during matching'}: match_count goes 3 → {got}, "
+                              f"documented {want} (a line that did not match is not counted)")
+    rep.check(bad is None, rid, f"{fi.file}::CsvPath._consider_line counts matching lines only", bad or "6 rows", K.where(fi, fi.node))
 
 
 def r3(idx, rep):
